@@ -116,6 +116,20 @@ def run(ck, tier, seed):
             if n >= 4 and rnd.random() > 0.25:
                 continue
             given.append({"id": f"k{n}_{i}", "text": " ".join(combo), "valid": False})
+    # numeric token shapes far outside every representable range: the answer is still a tree or an eval_error
+    nums = []
+    for digits in ("9" * 19, "9" * 20, "18446744073709551615", "18446744073709551616", "1" + "0" * 30, "9" * 60):
+        nums += [digits, digits + "u", digits + "ll", digits + "ul", "-" + digits, "(" + digits, "var x = " + digits + " + 1"]
+    for body in ("f" * 15, "f" * 16, "f" * 17, "1" + "0" * 16, "f" * 40):
+        nums += ["0x" + body, "0X" + body + "u", "0x" + body + "ll"]
+    for body in ("1" * 63, "1" * 64, "1" * 65, "1" + "0" * 64, "1" * 90):
+        nums += ["0b" + body, "0B" + body + "l"]
+    for body in ("7" * 21, "1" + "7" * 21, "2" + "0" * 21, "7" * 40):
+        nums += ["0" + body, "0" + body + "u"]
+    nums += ["1e99999", "1e-99999", "1.5e400", "1e400f", "1e5000l", "9" * 400 + ".5", "0." + "0" * 400 + "1", "1.2.3", "1e", "1e+", "1.e5", ".5", "5.", "1e5e5", "0x", "0b", "0b2",
+             "0xg", "08", "09.5", "1uu", "1lll", "1ulu", "1.5u", "1f", "0x1p3", "1_000", "\"${" + "9" * 25 + "}\"", "'\\" + "7" * 12 + "'"]
+    for i, t in enumerate(nums):
+        given.append({"id": f"n{i}", "text": t, "valid": False})
     inter = []
     for e in ["1 )", "1 ]", "(1", "1 + 2 ) * 3", "[1, 2", "f(1))", "a ) b", ") 1", "1 ) ) )", "(1) ]"]:
         for pre, post in (("", ""), ("x", "y"), ("${1}", "")):
@@ -215,7 +229,7 @@ def run(ck, tier, seed):
                 ck.violation("outcome:" + label[:60], f"parse of {label!r} ended with {oc}", {"text": s[:2000]})
     ck.extra.update({"texts_exhaustive": len(recs), "generated_and_mutated": len(given), "interpolations": len(inter), "robustness_inputs": len(rob)})
     ck.exhaustive = True
-    ck.rule = (f"every text of length <= {maxlen} over 17 character classes (exhaustive); seeded valid programs of the C03 generator with 6 mutations each; sequences of up to 3-4 statement-level keywords and blocks; interpolation "
+    ck.rule = (f"every text of length <= {maxlen} over 17 character classes (exhaustive); seeded valid programs of the C03 generator with 6 mutations each; sequences of up to 3-4 statement-level keywords and blocks; numeric tokens beyond every representable range in all four bases and float shapes; interpolation "
                "strings with unbalanced code; nesting ramps of 15 openers (600 to 200,000 deep), seeded byte mutations (NUL, > 0x7e, quotes, braces) under ASan/UBSan; "
                "distinct = (verdict, trivia, outcome, family)")
     ck.sample({"text": concrete(recs[len(recs) // 3]["text"]), "verdict": recs[len(recs) // 3]["verdict"]})
